@@ -96,8 +96,8 @@ def run_expected_violations(rep, muts, *, par=4):
 
 
 def cells(rep):
-    """The option x kind matrix: TLC checks Classify [= Contract on every cell (with the proposed repair of
-    ExcludedErrors) and prints the cells."""
+    """The option x kind matrix: TLC checks Classify [= Contract on every cell (with ExcludedErrors consulted, as
+    committed in 4f757ff) and prints the cells."""
     r = tlc.run_tlc(COMP, "ErrContractMC", "EC_fixed.cfg", workers=1, timeout=300)
     rep.add_tlc("ErrContractMC/EC_fixed.cfg", r, "Classify (transcription of the recover wrappers + CanContinueOnError, with "
                 "ExcludedErrors consulted) refines Contract (property C03) on all 16 kinds x 2^4 options")
